@@ -38,6 +38,18 @@ def IDLE : Nat := 5184000
 /-- IDLE_CONNECTION_CHECK_INTERVAL_SECONDS = 300 s -/
 def SWEEP : Nat := 4800
 
+/-- what the application's `setter_callback` of a characteristic does when a controller writes it
+    (run inside `client_update_value`, after the assignment, on the loop thread) -/
+inductive Callback
+  | none
+  /-- confirms the state: `char.set_value(value)` with the written value -/
+  | echo
+  /-- clamps / normalises: `char.set_value(v2)` -/
+  | setTo (v2 : Val)
+  /-- updates another characteristic: `other.set_value(w)` -/
+  | setOther (y : Cid) (w : Val)
+  deriving DecidableEq, Repr
+
 /-- Static description of the accessory plus the two repair switches
     (`fix12`/`fix13` = false gives the code as it was before the repairs). -/
 structure Cfg where
@@ -45,6 +57,8 @@ structure Cfg where
   imm : Cid → Bool
   /-- `type_id in ALWAYS_NULL` -/
   nul : Cid → Bool
+  /-- the characteristic's `setter_callback` (raising callbacks are outside the alphabet: DESIGN §9) -/
+  cb : Cid → Callback := fun _ => Callback.none
   /-- design/fixes/C12.patch applied (`discard_stale_event` after a successful controller write) -/
   fix12 : Bool := true
   /-- design/fixes/C13.patch applied (`close()` cancels the event timer and clears the queue) -/
@@ -304,6 +318,28 @@ def writeVal (c : Cfg) (s : St) (x : Cid) (v : Val) (sender : Option Addr) : St 
   let s2 := if changed then publish c s1 x v sender else s1
   if c.nul x then { s2 with value := upd s2.value x none } else s2
 
+/-- the state in which callbacks and `notify` run: the new value is already stored -/
+def setVal (s : St) (x : Cid) (v : Val) : St := { s with value := upd s.value x (some v) }
+
+/-- `self.setter_callback(value)`: the application's reaction, each a `set_value` on the loop thread -/
+def runCallback (c : Cfg) (s : St) (x : Cid) (v : Val) : St :=
+  match c.cb x with
+  | .none => s
+  | .echo => writeVal c s x v none
+  | .setTo v2 => writeVal c s x v2 none
+  | .setOther y w => writeVal c s y w none
+
+/-- `Characteristic.client_update_value(v, sender)` in statement order: `previous_value`, assign,
+    callback, `changed = self._value != previous_value`, `notify(sender)` iff changed (it publishes
+    `self.value` as it is by then), always-null reset -/
+def clientUpdate (c : Cfg) (s : St) (x : Cid) (v : Val) (sender : Option Addr) : St :=
+  let prev := s.value x
+  let s2 := runCallback c (setVal s x v) x v
+  let s3 := match s2.value x with
+    | some u => if s2.value x ≠ prev then publish c s2 x u sender else s2
+    | none => s2
+  if c.nul x then { s3 with value := upd s3.value x none } else s3
+
 /-- `Characteristic.set_value(v)` from the application -/
 def appSet (c : Cfg) (s : St) (x : Cid) (v : Val) : St := writeVal c s x v none
 
@@ -349,7 +385,7 @@ def putSub (c : Cfg) (s : St) (p : ObjId) (x : Cid) (ev : Option Bool) : St :=
     ghost: the writer has learned `v` from its own acknowledged write -/
 def putVal (c : Cfg) (s : St) (p : ObjId) (x : Cid) (v : Val) : St :=
   let a := (s.obj p).addr
-  let s5 := discardStale c (writeVal c s x v (some a)) a x
+  let s5 := discardStale c (clientUpdate c s x v (some a)) a x
   { s5 with obj := upd s5.obj p { s5.obj p with learned := upd (s5.obj p).learned x (some v) } }
 
 /-- `AccessoryDriver.set_characteristics` for one query from a verified connection -/
